@@ -95,10 +95,12 @@ type harness struct {
 	insts   []*tact
 	handle  map[string]*actor.PID
 	lastPre map[string]*tact
-	quiet   atomic.Bool // stop emitting (cleanup phase)
-	stopRet atomic.Bool // ActorSystem.Stop has returned
+	quiet   atomic.Bool                   // stop emitting (cleanup phase)
+	stopRet atomic.Bool                   // ActorSystem.Stop has returned
+	cancels map[string]context.CancelFunc // model thread -> cancel of its "spawnx" context
 	pushes  atomic.Int64
 	gateH   bool // gate the message handler of test actors
+	free    bool // free-running (stress): no gating
 	msgid   atomic.Int64
 	spin    int
 	grains  map[string]*actor.GrainIdentity
@@ -219,6 +221,8 @@ type tact struct {
 	pid    *actor.PID
 	hook   string // thread whose program runs inside the PostStart handler
 	hooked bool
+	gated  bool          // the pre.start gate was passed (init retries PreStart: gate only once)
+	enter  chan struct{} // free-running "spawnx": closed when PreStart is entered; PreStart then waits for the cancellation
 }
 
 func (h *harness) newAct(name string) *tact {
@@ -231,9 +235,27 @@ func (h *harness) newAct(name string) *tact {
 	return a
 }
 
-func (a *tact) preStart() {
+// preStart fails with the error of the spawning caller's context when that context is done (a spawn aborted by
+// the cancellation of the caller that leads the single flight).
+func (a *tact) preStart(ctx context.Context) error {
 	h := a.h
-	h.yield("pre.start", 0, 0)
+	if !a.gated {
+		a.gated = true
+		h.yield("pre.start", 0, 0)
+		if a.enter != nil {
+			close(a.enter)
+			select {
+			case <-ctx.Done():
+			case <-time.After(2 * time.Second):
+			}
+		}
+	}
+	if err := ctx.Err(); err != nil {
+		return err
+	}
+	for i := 0; i < h.spin; i++ {
+		runtime.Gosched()
+	}
 	h.mu.Lock()
 	if a.inst == 0 {
 		h.ninst[a.name]++
@@ -244,6 +266,8 @@ func (a *tact) preStart() {
 	h.lastPre[a.name] = a
 	h.mu.Unlock()
 	h.emit("prestart", func(e map[string]any) { e["n"] = a.name; e["i"] = a.inst; e["k"] = a.k })
+	a.gated = false // the next incarnation (Restart) is gated again
+	return nil
 }
 
 func (a *tact) postStop() {
@@ -284,8 +308,8 @@ func (a *tact) message(m any) {
 	}
 }
 
-func (a *tact) PreStart(*actor.Context) error { a.preStart(); return nil }
-func (a *tact) PostStop(*actor.Context) error { a.postStop(); return nil }
+func (a *tact) PreStart(ctx *actor.Context) error { return a.preStart(ctx.Context()) }
+func (a *tact) PostStop(*actor.Context) error     { a.postStop(); return nil }
 func (a *tact) Receive(ctx *actor.ReceiveContext) {
 	switch m := ctx.Message().(type) {
 	case *actor.PostStart:
@@ -386,11 +410,37 @@ func (h *harness) execOp(t string, o opT, self *actor.PID) {
 		call()
 		pid, err := h.sys.Spawn(ctx, h.real(o.N), a, actor.WithLongLived())
 		ret(err, pid)
+	case "spawnx":
+		// Spawn under a context that is cancelled mid-spawn: by the driver (SpCancel) in a replay, by this thread itself
+		// once PreStart has been entered in a free run
+		a := h.newAct(o.N)
+		cctx, cancel := context.WithCancel(ctx)
+		h.mu.Lock()
+		h.cancels[t] = cancel
+		h.mu.Unlock()
+		free := h.s == nil || h.free
+		if free {
+			a.enter = make(chan struct{})
+			go func() {
+				select {
+				case <-a.enter:
+					for i := 0; i < 50+h.spin*50; i++ {
+						runtime.Gosched()
+					}
+				case <-time.After(50 * time.Millisecond): // it joined somebody else's flight
+				}
+				cancel()
+			}()
+		}
+		call()
+		pid, err := h.sys.Spawn(cctx, h.real(o.N), a, actor.WithLongLived())
+		ret(err, pid)
+		cancel()
 	case "spawnfn":
 		a := h.newAct(o.N)
 		call()
 		pid, err := h.sys.SpawnNamedFromFunc(ctx, h.real(o.N), func(_ context.Context, m any) error { a.message(m); return nil },
-			actor.WithPreStart(func(context.Context) error { a.preStart(); return nil }),
+			actor.WithPreStart(func(c context.Context) error { return a.preStart(c) }),
 			actor.WithPostStop(func(context.Context) error { a.postStop(); return nil }))
 		ret(err, pid)
 	case "spawnchild":
@@ -474,7 +524,7 @@ func newSystem() actor.ActorSystem {
 
 func newHarness(sys actor.ActorSystem, w *vtrace.Writer, scn *scenario, sfx string) *harness {
 	h := &harness{sys: sys, w: w, scn: scn, sfx: sfx, ctx: context.Background(), ninst: map[string]int{}, acts: map[*actor.PID]*tact{},
-		handle: map[string]*actor.PID{}, lastPre: map[string]*tact{}}
+		handle: map[string]*actor.PID{}, lastPre: map[string]*tact{}, cancels: map[string]context.CancelFunc{}}
 	h.tree = actor.VerifTreeOf(sys)
 	h.dw = actor.VerifDeathWatchOf(sys)
 	h.ug = actor.VerifUserGuardianOf(sys)
@@ -982,6 +1032,30 @@ func (r *runner) exec(x step) {
 				r.newFl = r.newFl[1:]
 			}
 		}
+	case "SpCancel":
+		// the context of the flight's leader is cancelled: the leader returns at once, the flight goes on
+		th := r.th(arg0)
+		h.mu.Lock()
+		cancel := h.cancels[arg0]
+		h.mu.Unlock()
+		if cancel == nil {
+			r.setDrift("SpCancel:no-context")
+			return
+		}
+		cancel()
+		if _, err := r.s.Await(th); err != nil {
+			r.setDrift("SpCancel:await:%v", err)
+			return
+		}
+		if f := r.flights[r.currentOp(arg0).N]; f != nil {
+			ws := f.waiters[:0]
+			for _, w := range f.waiters {
+				if w != th {
+					ws = append(ws, w)
+				}
+			}
+			f.waiters = ws
+		}
 	case "FlStart", "FlLookup", "FlPreStart", "FlAttach", "FlAddW":
 		f := r.flights[arg0]
 		if f == nil || f.th == "" {
@@ -1272,6 +1346,7 @@ func stressOne(sys actor.ActorSystem, w *vtrace.Writer, scn *scenario, name stri
 	}
 	h := newHarness(sys, w, scn, "-s"+strconv.Itoa(bi))
 	h.spin = rng.Intn(3)
+	h.free = true
 	w.Raw(map[string]any{"ev": "New", "t": "", "op": "", "n": "", "w": "", "i": 0, "k": 0, "ok": 0, "c": int(sys.NumActors()), "run": 0, "d": []any{}, "x": name,
 		"names": scn.Names, "parent": scn.Parent, "wit": []string{}, "watch": watchList(scn)})
 	h.setup()
